@@ -378,6 +378,20 @@ var Schemas = []Schema{
 	{"stmt-plus-call-above-minus-call", func(g *G) *Change {
 		return &Change{Kind: "stmts", Lines: lines(" tgtBefore()", "+replCall(‹1:args›)", "-tgtCall(‹1:args›)")}
 	}},
+	// an elision on a line of its own in front of a line that begins with a token that could start a type: still an
+	// elision, not a variadic '...T'
+	{"stmt-dots-before-star-line", func(g *G) *Change {
+		return &Change{Kind: "stmts", Lines: lines(" tgtOpen()", " ‹1:stmts›", "-*tgtP = 1", "+*tgtP = 2")}
+	}},
+	{"stmt-dots-before-receive-line", func(g *G) *Change {
+		return &Change{Kind: "stmts", Lines: lines(" tgtOpen()", " ‹1:stmts›", "-<-tgtDone", "+<-tgtClosed")}
+	}},
+	{"stmt-dots-before-func-literal-line", func(g *G) *Change {
+		return &Change{Kind: "stmts", Lines: lines(" tgtOpen()", " ‹1:stmts›", "-func() { tgtA() }()", "+func() { tgtB() }()")}
+	}},
+	{"decl-dots-before-embedded-pointer-field", func(g *G) *Change {
+		return &Change{Kind: "decl", Meta: mv("N", "identifier"), Lines: lines(" type «N» struct {", "   ‹1:fields›", "-  *tgtEmbedded", "+  *replEmbedded", "   ‹2:fields›", " }")}
+	}},
 	{"stmt-plus-block-above-minus-block", func(g *G) *Change {
 		return &Change{Kind: "stmts", Lines: lines("+if tgtOk {", "+  ‹1:stmts›", "+}", "-if !tgtBad {", "-  ‹1:stmts›", "-}")}
 	}},
